@@ -93,9 +93,9 @@ def run(c):
 
     # the streams run as two processes side by side (each stream draws from its own generator and numbers its cases from its own
     # base, so what is generated does not depend on the split): the fixed catalogues + histories, and the generated files
-    HALVES = ["fn,chain,notdsl,hist", "bytes,dsl,struct"]
+    HALVES = ["fn,chain,notdsl,hist,group", "bytes,dsl,struct"]
 
-    def observe(seed, nbytes, ndsl, nstruct, nhist, nfn):
+    def observe(seed, nbytes, ndsl, nstruct, nhist, nfn, ngroup):
         import threading
         state["round"] += 1
         c.log("harness ...")
@@ -104,7 +104,7 @@ def run(c):
 
         def run(k):
             results[k] = c.run_harness(hb, ["-seed", str(seed), "-bytes", str(nbytes), "-dsl", str(ndsl), "-struct", str(nstruct), "-hist", str(nhist),
-                                            "-fn", str(nfn), "-streams", HALVES[k], "-repo", c.repo,
+                                            "-fn", str(nfn), "-group", str(ngroup), "-streams", HALVES[k], "-repo", c.repo,
                                             "-tmp", os.path.join(c.work, "tmp%d_%d" % (state["round"], k))] + (["-ops", ops_path] if g3 else []),
                                        timeout=2400)
         ths = [threading.Thread(target=run, args=(k,)) for k in range(len(HALVES))]
@@ -128,7 +128,18 @@ def run(c):
 
     def model_verdicts(cases, tag):
         """validate each dsl rule in Coq; returns {id: bool}"""
-        dsl = [x for x in cases if x["stream"] == "dsl" and x.get("rule") and x["obs"]["kind"] in ("ok", "error")]
+        dsl = [{"id": x["id"], "rule": x["rule"]} for x in cases if x["stream"] == "dsl" and x.get("rule") and x["obs"]["kind"] in ("ok", "error")]
+        # stream group: every rule of the file is judged from its own description (id = 1000 * case + position); equal descriptions once
+        memo = {}
+        for x in cases:
+            if x["stream"] == "group" and x["obs"]["kind"] in ("ok", "error"):
+                for j, r in enumerate(r for g in x["groups"] for r in g["rules"]):
+                    key = json.dumps(r, sort_keys=True)
+                    if key in memo:
+                        group_alias[x["id"] * 1000 + j] = memo[key]
+                    else:
+                        memo[key] = x["id"] * 1000 + j
+                        dsl.append({"id": x["id"] * 1000 + j, "rule": r})
         if not gen_ok or not dsl:
             return {}
         pre = ["From Coq Require Import List String Ascii Bool ZArith NArith.",
@@ -172,10 +183,58 @@ def run(c):
                 verdict[int(m.group(1))] = tuple(m.group(k) == "true" for k in (2, 3, 4))
         if len(verdict) != len(dsl):
             c.obligation("coq-eval-parse:" + tag, False, "got %d verdicts for %d cases" % (len(verdict), len(dsl)))
+        for k, v in group_alias.items():
+            if v in verdict:
+                verdict[k] = verdict[v]
         return verdict
 
     probed, control = set(), set()
     seen_errors = set()
+    group_alias = {}
+
+    def unbound_of(r):
+        refs = [v for a in r["atoms"] for v in (a.get("vars") or [])] + ([r["at"]] if r["at"] else [])
+        return sorted({v for v in refs if v != "$$" and any(v not in alt["vars"] for alt in r["alts"])})
+
+    def judge_group(x, inp, verdict):
+        """a file with several rules per group / several groups: what Load checks for a rule does not depend on the rules before it"""
+        o = x["obs"]
+        rules = [(gi, k, r) for gi, g in enumerate(x["groups"]) for k, r in enumerate(g["rules"])]
+        alone = [a for g in x["alone"] for a in g]
+        c.nontriv(("group", x.get("src")))
+        name = lambda gi, k: "rule %d of group g%d" % (k + 1, gi + 1)
+        inp = dict(inp, what=x.get("what"), alone=["%s: %s" % (name(gi, k), a["kind"] + (" " + a.get("err", "") if a["kind"] != "ok" else ""))
+                                                   for (gi, k, _), a in zip(rules, alone)])
+        if o["kind"] not in ("ok", "error"):
+            return
+        ill = [(gi, k, unbound_of(r)) for gi, k, r in rules if unbound_of(r)]
+        if o["kind"] == "ok" and ill:
+            c.fail("oracle", "Load accepts a file in which a rule's Where / At clause refers to a variable that not every alternative of ITS pattern binds "
+                   "(the rule stands behind other rules: " + (x.get("what") or "") + ")", input=inp,
+                   observed="accepted; " + "; ".join("%s: unbound %s" % (name(gi, k), ", ".join(u)) for gi, k, u in ill) + (" ; Run: " + x["run"] if x.get("run") else ""),
+                   expected="a located error (filter / location refers to a non-existing var)")
+        rejected_alone = [name(gi, k) for (gi, k, _), a in zip(rules, alone) if a["kind"] != "ok"]
+        if o["kind"] == "ok" and rejected_alone and not ill:
+            c.fail("oracle", "Load accepts, behind other rules, a rule that it rejects when the rule stands alone in the file", input=inp,
+                   observed="accepted; rejected alone: " + ", ".join(rejected_alone), expected="a located error")
+        if o["kind"] == "error" and not rejected_alone:
+            c.fail("corr", "Load rejects a file every rule of which it accepts alone", input=inp, observed=o.get("err"))
+        if rejected_alone:
+            c.coverage["group_files_with_a_bad_later_rule"] = c.coverage.get("group_files_with_a_bad_later_rule", 0) + (
+                1 if alone[0]["kind"] == "ok" else 0)
+        vs = [verdict.get(x["id"] * 1000 + j) for j in range(len(rules))]
+        if all(v is not None for v in vs):
+            c.coverage["model_vs_impl_group_files"] = c.coverage.get("model_vs_impl_group_files", 0) + 1
+            if not all(v[2] for v in vs):
+                c.fail("corr", "a rule description of the file names an op that is not an op of the regenerated table that takes a variable", input=inp)
+            elif o["kind"] == "ok" and not all(v[1] for v in vs):
+                if not ill and not rejected_alone:
+                    c.fail("oracle", "Load accepts a file with a rule that the validation specification rejects", input=inp,
+                           observed="accepted; " + ", ".join(name(gi, k) for (gi, k, _), v in zip(rules, vs) if not v[1]), expected="a located error")
+            elif (o["kind"] == "ok") != all(v[0] for v in vs):
+                c.fail("corr", "Load %s a file that the model of the loader (validate_file: every rule validates, each from its own description) %s" % (
+                    ("accepts", "rejects") if o["kind"] == "ok" else ("rejects", "accepts")), input=inp,
+                    observed=(o.get("err") or "accepted") + " ; model per rule: " + ", ".join("%s: %s" % (name(gi, k), v[0]) for (gi, k, _), v in zip(rules, vs)))
 
     def judge(cases, tag, with_model=True):
         verdict = model_verdicts(cases, tag) if with_model else {}
@@ -208,7 +267,10 @@ def run(c):
             if x.get("shift"):
                 c.fail("oracle", "the line a Load error names is not a line of the rules file: it does not move when blank lines are inserted above it",
                        input=inp, observed=x["shift"], expected="the same error, 3 lines further down")
-            if x.get("span"):
+            if x.get("span") and x["stream"] == "group":
+                c.fail("oracle", "the line a Load error names is not a line of a rule that is wrong (every rule was also loaded alone): " + (x.get("what") or ""),
+                       input=inp, observed="%s ; %s" % (x["span"], o.get("err")), expected="an error that names a line of a rule that is rejected alone")
+            elif x.get("span"):
                 c.fail("oracle", "the line a Load error names is not a line of the construct that is wrong: " + (x.get("what") or ""),
                        input=inp, observed="%s ; %s" % (x["span"], o.get("err")), expected="an error that names a line of the declaration the construct stands in")
             if o["kind"] == "error":
@@ -254,6 +316,8 @@ def run(c):
                 if nsample < 3 and o["kind"] == "ok" and len(r["alts"]) > 1:
                     nsample += 1
                     c.sample({"rule": r, "obs": o})
+            elif x["stream"] == "group":
+                judge_group(x, inp, verdict)
             elif x["stream"] in ("fn", "chain"):
                 c.nontriv((x["stream"], x.get("what")))
             else:
@@ -263,15 +327,15 @@ def run(c):
             1 for x in cases if x["stream"] == "dsl" and x.get("rule") for a in x["rule"]["atoms"] if a.get("chk") == "binary")
         c.coverage["constant_vs_constant_comparisons"] = c.coverage.get("constant_vs_constant_comparisons", 0) + sum(
             1 for x in cases if x["stream"] == "dsl" and x.get("rule") for a in x["rule"]["atoms"] if a.get("chk") == "binary" and a["l"] == "lit" and a["r"] == "lit")
-        for s in ("fn", "chain", "bytes", "notdsl", "dsl", "struct", "hist"):
+        for s in ("fn", "chain", "bytes", "notdsl", "dsl", "struct", "hist", "group"):
             c.coverage["cases_" + s] = c.coverage.get("cases_" + s, 0) + sum(1 for x in cases if x["stream"] == s)
             c.coverage["accepted_" + s] = c.coverage.get("accepted_" + s, 0) + sum(1 for x in cases if x["stream"] == s and x["obs"]["kind"] == "ok")
 
     if thorough:
         for k in range(3):
-            judge(observe(c.seed * 31 + k, 1500, 2000, 1000, 400, 600), "t%d" % k)
+            judge(observe(c.seed * 31 + k, 1500, 2000, 1000, 400, 600, 400), "t%d" % k)
     else:
-        judge(observe(c.seed, 200, 400, 100, 24, 30), "main")
+        judge(observe(c.seed, 200, 400, 100, 24, 30, 20), "main")
     # bound-variable checking was probed through EVERY op of the regenerated table that takes a variable: rejected with a variable
     # that no / not every alternative binds, accepted with a bound one
     if g3:
@@ -283,7 +347,7 @@ def run(c):
 
     def search():
         for k in range(1, 4):
-            judge(observe(c.seed * 1009 + k, 1500, 1500, 1200, 300, 600), "s%d" % k, with_model=gen_ok)
+            judge(observe(c.seed * 1009 + k, 1500, 1500, 1200, 300, 600, 300), "s%d" % k, with_model=gen_ok)
             if any(f["kind"] == "oracle" and not f.get("finding") for f in c.failures):
                 break
 
